@@ -153,6 +153,8 @@ func checkC17(w *World, r *Report) {
 	r.Try(func() { ruleListOrderPreserved(w, r, "R17.10", la) })
 	r.Rule("R17.11", 5, "what is served is what was registered: instance registrations are answered with the descriptor's own instance, constructors with the descriptor's own function")
 	r.Try(func() { ruleFunctionIdentity(w, r, "R17.11") })
+	r.Rule("R17.15", 1, "the registry views are rewritten only by their writers: no in-place slice operation on an alias of a view or on another owner's slice")
+	r.Try(func() { ruleNoInPlaceOnShared(w, r, "R17.15") })
 	r.Rule("R17.13", 1, "acceptance of a registration depends on the registry views and on the batch in hand only: every table the duplicate test consults is a view or a set made for this batch")
 	r.Try(func() { ruleDuplicateTestReadsViewsOnly(w, r, "R17.13") })
 	r.Rule("R17.14", 4, "a registration issued through a module reaches the collection: AddModules and NewModule are the plain traversal (every invocation applies every builder, first error returned)")
